@@ -35,6 +35,7 @@ def cmpLine (v : TVal) (ty : String) (c : String) : Option String :=
 
 def valuesStep (st : ValState) (ts : List String) : ValState × List String :=
   match ts with
+  | ["__end__"] => (st, [])
   | "case" :: _ => ({}, [" ".intercalate ts])
   | ["v", "new"] => ({ st with cur := [] }, ["st " ++ showEntries []])
   | ["v", "insert", k, v] =>
@@ -107,6 +108,7 @@ def showMeta (m : PersistedMeta) : String :=
 
 def wireStep (st : ValState) (ts : List String) : ValState × List String :=
   match ts with
+  | ["__end__"] => (st, [])
   | "case" :: _ => ({}, [" ".intercalate ts])
   | "w" :: "enc" :: "ev" :: rest =>
     match pEvent rest with
@@ -146,6 +148,7 @@ def wireStep (st : ValState) (ts : List String) : ValState × List String :=
 
 def normalizeStep (st : ValState) (ts : List String) : ValState × List String :=
   match ts with
+  | ["__end__"] => (st, [])
   | "case" :: _ => ({}, [" ".intercalate ts])
   | "ev" :: rest =>
     match pEvent rest with
